@@ -257,8 +257,8 @@ only worth something if the user the auth rules take for the authoriser of a res
 must sign.  The model below mirrors the repaired function (/repo "member content was read under case variants of
 its member names"): the content restricted to the members named EXACTLY as `MemberContent`'s fields, full decode
 with fall-back to the partial `membershipContent` — an error iff one of the four members the auth rules read is
-ill-typed.  `VModel/Auth.lean` (`decodeMemberContent`, C07's model) is the same function with the folded lookup the
-code had before; `VProps/C06.lean` relates the two (`memberContent_eq_auth`). -/
+ill-typed.  `VModel/Auth.lean` (`decodeMemberContent`, C07's model) is the same function with the same exact lookups;
+`VProps/C06.lean` relates the two without side condition (`memberContent_eq_auth`). -/
 
 structure MemberReading where
   membership : Bytes
